@@ -7,6 +7,7 @@ import (
 
 	"github.com/openziti/storage/ast"
 	"go.etcd.io/bbolt"
+	"sort"
 	"verif/harness/internal/core"
 	"verif/harness/internal/qx"
 )
@@ -175,6 +176,34 @@ func runC02(c *core.Ctx, idx int) {
 									cmp("IterateIds(paged)", idsOf(st.Store.IterateIds(tx, pq)), 0, nil, false)
 								}
 							}
+							// an index-driven cursor provider over two or three values of the set index: the page of the matching
+							// entities that hold one of them (every sort, both directions of the id scan)
+							if pq, perr := ast.Parse(st.Store, text); perr == nil {
+								vals := c02NumVals(r, env.w)
+								var sub []string
+								for _, id := range match {
+									nums, _ := env.w.Rows[qx.Things][id].V["nums"].([]string)
+									hit := false
+									for _, x := range nums {
+										for _, v := range vals {
+											if x == v {
+												hit = true
+											}
+										}
+									}
+									if hit {
+										sub = append(sub, id)
+									}
+								}
+								subIds, subCount := env.w.Page(qx.Things, sub, q)
+								ids, count, err := st.Store.QueryWithCursorC(tx, st.Store.IteratorMatchingAnyOf(st.SetIdx["nums"], vals), pq)
+								c.Eval()
+								c.Cover("path", "QueryWithCursorC(IteratorMatchingAnyOf)")
+								if err != nil || !sameIds(ids, subIds) || count != subCount {
+									c.Violationf("C02 wrong page (QueryWithCursorC(IteratorMatchingAnyOf)): "+gridKey, map[string]any{"query": text, "index_values": vals, "world": describeWorld(env.w)},
+										"query %q over nums in %q: engine %q count %d err=%v, oracle %q count %d", text, vals, ids, count, err, subIds, subCount)
+								}
+							}
 						}
 						proper := len(wantIds) > 0 && int64(len(wantIds)) < n
 						if proper || sk != nil || lm.v != nil {
@@ -189,6 +218,29 @@ func runC02(c *core.Ctx, idx int) {
 		}
 		return nil
 	})
+}
+
+// c02NumVals picks two or three values of the nums set index (values in use when there are any).
+func c02NumVals(r *core.Rand, w *qx.World) []string {
+	seen := map[string]bool{}
+	var pool []string
+	for _, id := range w.Ids(qx.Things) {
+		nums, _ := w.Rows[qx.Things][id].V["nums"].([]string)
+		for _, x := range nums {
+			if x != "" && !seen[x] {
+				seen[x] = true
+				pool = append(pool, x)
+			}
+		}
+	}
+	sort.Strings(pool)
+	pool = append(pool, "no-such-num")
+	n := 2 + r.Intn(2)
+	var out []string
+	for i := 0; i < n; i++ {
+		out = append(out, core.Pick(r, pool))
+	}
+	return out
 }
 
 func sortText(s []qx.SortF) string {
